@@ -285,6 +285,21 @@ func genPNG(rt *rapid.T, maxICC int) Case {
 				}
 				ch = build.RawICCPChunk(string(name), z)
 			}
+			// half of the files get a filler chunk that puts one of the iCCP chunk's internal positions (start of
+			// its data, end of the profile name, end of its data, end of its CRC) within 4 bytes of a multiple of
+			// 4096 in the file - where a reader's buffer is refilled
+			if rapid.Bool().Draw(rt, "align") {
+				off := 8 + 25
+				for _, pc := range p.Pre {
+					off += 12 + len(pc.Data)
+				}
+				x := []int{8, 8 + nameLen + 2, 8 + len(ch.Data), 12 + len(ch.Data)}[rapid.IntRange(0, 3).Draw(rt, "alignwhat")]
+				delta := rapid.IntRange(-4, 4).Draw(rt, "aligndelta")
+				k := rapid.IntRange(1, 3).Draw(rt, "alignblock")
+				L := ((k*4096+delta-(off+12+x))%4096 + 4096) % 4096
+				p.Pre = append(p.Pre, build.Chunk{Type: "tEXt", Data: make([]byte, L)})
+				note += fmt.Sprintf(", aligned by a %d-byte tEXt chunk", L)
+			}
 			p.Pre = append(p.Pre, ch)
 		}
 		if i < n {
@@ -297,7 +312,7 @@ func genPNG(rt *rapid.T, maxICC int) Case {
 	if p.ColorType == 3 {
 		p.Pre = append(p.Pre, build.Chunk{Type: "PLTE", Data: []byte{1, 2, 3}})
 	}
-	p.IDAT = []byte{1, 2, 3, 4}
+	p.IDAT = make([]byte, rapid.SampledFrom([]int{4, 4, 100, 5000, 9000}).Draw(rt, "idatlen"))
 	c.Data, _ = p.Bytes()
 	c.Desc = fmt.Sprintf("PNG %dx%d ct=%d depth=%d, %d pre-IDAT chunks; %s", p.W, p.H, p.ColorType, p.Depth, len(p.Pre), note)
 	return c
